@@ -1,0 +1,53 @@
+//go:build verif
+
+package entry
+
+import (
+	"github.com/ipfs/go-log/v2"
+
+	beaconchain "github.com/keep-network/keep-core/pkg/beacon/chain"
+	"github.com/keep-network/keep-core/pkg/chain"
+	"github.com/keep-network/keep-core/pkg/protocol/group"
+)
+
+// Verification hook (build tag verif): re-exports existing identifiers only.
+
+// VerifC47SubmitRelayEntry runs relayEntrySubmitter.submitRelayEntry exactly as
+// SignAndSubmit does after the signature has been completed.
+func VerifC47SubmitRelayEntry(
+	logger log.StandardLogger,
+	beaconChain beaconchain.Interface,
+	blockCounter chain.BlockCounter,
+	index group.MemberIndex,
+	newEntry []byte,
+	groupPublicKey []byte,
+	startBlockHeight uint64,
+	relayEntrySubmittedChannel <-chan uint64,
+	relayEntryTimeoutChannel <-chan uint64,
+) error {
+	submitter := &relayEntrySubmitter{
+		logger:       logger,
+		chain:        beaconChain,
+		blockCounter: blockCounter,
+		index:        index,
+	}
+	return submitter.submitRelayEntry(
+		newEntry,
+		groupPublicKey,
+		startBlockHeight,
+		relayEntrySubmittedChannel,
+		relayEntryTimeoutChannel,
+	)
+}
+
+func VerifC47CalculateSubmissionQueueIndex(
+	memberIndex uint64,
+	firstSubmitterMemberIndex uint64,
+	groupSize uint64,
+) uint64 {
+	return calculateSubmissionQueueIndex(
+		memberIndex,
+		firstSubmitterMemberIndex,
+		groupSize,
+	)
+}
